@@ -19,6 +19,10 @@ func c03Gen(rng *rand.Rand, m *model.Model, keys []string) []string {
 		k = pick(rng, keys) // wrong-typed or missing sometimes
 	}
 	n := modelLen(m, 0, k)
+	if rng.Intn(30) == 0 {
+		// the key's deadline has passed but its object is still stored: every command must treat it as missing
+		return []string{pick(rng, []string{"PEXPIREAT", "EXPIREAT"}), k, "1"}
+	}
 	if rng.Intn(40) == 0 {
 		// wide commands: 65-200 arguments (loops that work in batches have their boundaries there)
 		w := 65 + rng.Intn(136)
